@@ -23,7 +23,7 @@ def run(ctx):
                            'numerators are refused with ValueError, which is checked)')
     n = uscan.report_sinks(ctx, lambda cat: 'C12.R1' if cat in ROW_CATS else 'C12.R3' if cat in STORAGE_CATS else
                            'C12.R2' if cat == 'type-compare' else None, _without_enzyme_solute(ctx, None))
-    floor(ctx, 'unit sink sites in create_solution_from', n, 15)
+    floor(ctx, 'unit sink sites in create_solution_from', n, 6)
     # each quantity unit has a reachable row, i.e. an accepting path (spec floor 3)
     sc2 = _without_enzyme_solute(ctx, None)
     accepted = {}
@@ -127,7 +127,7 @@ def run(ctx):
 
 def _without_enzyme_solute(ctx, sc):
     """Restrict a scan of create_solution_from to the variants with a non-enzyme solute."""
-    key = (id(ctx.model), 'Container.create_solution_from', 'non-enzyme', ctx.tier)
+    key = (ctx.model.serial, 'Container.create_solution_from', 'non-enzyme', ctx.tier)
     if key in uscan._cache:
         return uscan._cache[key]
     from ..unitai import explore, Incomplete
